@@ -228,6 +228,45 @@ theorem exec_sim : ∀ (n : Nat) (k : List Stmt), progSize k ≤ n → ExecSim s
           refine ⟨m + 1, ?_⟩
           rw [hstep] at hE
           simpa [iter, hstep, evalFrame_cons, evalStmt, hst] using hE
+      | stopIfRequestedS =>
+        by_cases hst : s.srcStopped = true
+        · have hstep : step specs s = { s with frames := { fr with kont := k } :: rest, ctl := .exit .done } := by
+            simp [step, hc, hf, execStep, hkk, hst]
+          obtain ⟨m, hE⟩ := exit_sim specs .done fr.cleanups (step specs s) { fr with kont := k } rest
+            (by rw [hstep]) (by rw [hstep]) rfl hsync
+          refine ⟨m + 1, ?_⟩
+          rw [hstep] at hE
+          simpa [iter, hstep, evalFrame_cons, evalStmt, hst] using hE
+        · have hstep : step specs s = { s with frames := { fr with kont := k } :: rest } := by
+            simp [step, hc, hf, execStep, hkk, hst]
+          obtain ⟨m, hE⟩ := IHk (step specs s) { fr with kont := k } rest
+            (by rw [hstep]; exact hc) (by rw [hstep]) rfl (by rw [hstep]; exact hink) hsync
+          refine ⟨m + 1, ?_⟩
+          rw [hstep] at hE
+          simpa [iter, hstep, evalFrame_cons, evalStmt, hst] using hE
+      | awaitPlain i t =>
+        simp only [Stmt.inline, Bool.and_eq_true] at hinx
+        obtain ⟨hkind, hinl⟩ := hinx
+        cases hki : (specs i).kind with
+        | pending r => simp [hki, LeafKind.isInline] at hkind
+        | inline o =>
+          have hstep : step specs s =
+              { s with frames := { fr with kont := k, catching := t } :: rest, ctl := .resume (plainOutcome o), outs := s.outs ++ [.plainStart i, .sched fr.sched] } := by
+            simp_all [step, execStep, leafDone, schedHop, emit]
+          obtain ⟨j, hj⟩ := resume_norm specs (step specs s) { fr with kont := k, catching := t } rest (plainOutcome o)
+            (by rw [hstep]) (by rw [hstep])
+          obtain ⟨m, hE⟩ := absorb_sim specs k IHk _ { fr with kont := k, catching := t } rest (plainOutcome o)
+            (show ({ step specs s with ctl := exitCtl (plainOutcome o) } : St).ctl = exitCtl (plainOutcome o) from rfl)
+            (by rw [hstep]) rfl (by rw [hstep]; exact hink) hsync
+          refine ⟨(j + m) + 1, ?_⟩
+          have hiter : iter specs ((j + m) + 1) s = iter specs m { step specs s with ctl := exitCtl (plainOutcome o) } := by
+            show iter specs (j + m) (step specs s) = _
+            rw [iter_add, hj]
+          rw [hiter]
+          rw [hstep] at hE ⊢
+          have ht1 : cleanupTrace [Out.plainStart i, Out.sched fr.sched] = [] := rfl
+          have ht2 : rootTrace [Out.plainStart i, Out.sched fr.sched] = [] := rfl
+          simpa [evalFrame_cons, evalStmt, leafOutcome, hki, cleanupTrace_append, rootTrace_append, ht1, ht2] using hE
       | atExit a l =>
         have hstep : step specs s = emit { s with frames := { fr with kont := k, cleanups := (a, ckOf l, fr.sched) :: fr.cleanups, regd := a :: fr.regd } :: rest } (.reg fr.id a) := by
           simp [step, hc, hf, execStep, hkk]
@@ -298,20 +337,31 @@ theorem exec_sim : ∀ (n : Nat) (k : List Stmt), progSize k ≤ n → ExecSim s
 theorem iter_succ' (m : Nat) (s : St) : iter specs (m + 1) s = step specs (iter specs m s) := by
   rw [iter_add]; rfl
 
+theorem signal_traces (s : St) (o : Outcome) :
+    rootTrace (signal s o).outs = rootTrace s.outs ++ [o] ∧ cleanupTrace (signal s o).outs = cleanupTrace s.outs := by
+  unfold signal; simp only []
+  split <;> split <;> simp [emit, rootTrace, cleanupTrace]
+
 theorem root_step (x : St) (o : Outcome) (hc : x.ctl = exitCtl o) (hf : x.frames = []) (hso : x.stopOp = false) :
-    step specs x = { emit x (.root o) with ctl := .finished } := by
-  cases o <;> simp [step, hc, hf, exitCtl, rootDone, hso]
+    (step specs x).ctl = .finished ∧ rootTrace (step specs x).outs = rootTrace x.outs ++ [o] ∧
+      cleanupTrace (step specs x).outs = cleanupTrace x.outs := by
+  have hstep : step specs x = signal (if x.adapter then x else { x with tokRegs := 0 }) o := by
+    cases o <;> simp [step, hc, hf, exitCtl, rootDone, hso]
+  rw [hstep]
+  refine ⟨signal_ctl _ _, ?_, ?_⟩
+  · rw [(signal_traces _ o).1]; split <;> rfl
+  · rw [(signal_traces _ o).2]; split <;> rfl
 
 /-- start() of a connected task whose awaits all complete inline: the receiver is completed inside
     start() with the spec's outcome, after exactly the spec's cleanups.  `b`: stop was requested
     before start (then the scheduler must be inline, else the stop request is still queued). -/
-theorem start_inline (p : Prog) (inl st b : Bool) (hb : b = false ∨ inl = true)
+theorem start_inline (p : Prog) (inl st ad b : Bool) (hb : b = false ∨ inl = true)
     (hI : progInline specs inl p = true) :
-    let s := onStart specs { St.init p inl st with rootStopped := b }
+    let s := onStart specs { St.init p inl st ad with rootStopped := b }
     s.ctl = .finished ∧ rootTrace s.outs = [(evalProg specs b p).1] ∧
       cleanupTrace s.outs = (evalProg specs b p).2 := by
   intro s
-  let s0 : St := emit { St.init p inl st with rootStopped := b, srcStopped := b, ctl := .exec, frames := [{ rootFrame p with live := true }], outs := if b then [.sched 0] else [] } (.frameStart 0)
+  let s0 : St := emit { St.init p inl st ad with rootStopped := b, srcStopped := b, ctl := .exec, frames := [{ rootFrame p with live := true }], tokRegs := if st then 1 else 0, outs := if b then [.sched 0] else [] } (.frameStart 0)
   have hs : s = settle specs s0 := by
     rcases hb with hb | hb
     · subst hb; rfl
@@ -325,17 +375,12 @@ theorem start_inline (p : Prog) (inl st b : Bool) (hb : b = false ∨ inl = true
   have f5 : ({ rootFrame p with live := true } : Frame).acc = 0 := rfl
   have f6 : ({ rootFrame p with live := true } : Frame).cleanups.map Prod.fst = [] := rfl
   rw [f1, f2, f3, f4, f5, f6] at hE
-  have hfin : iter specs (m + 1) s0 = { emit (iter specs m s0) (.root (evalProg specs b p).1) with ctl := .finished } := by
-    rw [iter_succ']
-    exact root_step specs _ _ hE.ctl hE.frames hE.stopOp
-  have hh : (iter specs (m + 1) s0).halted = true := by rw [hfin]; rfl
-  rw [hs, settle_eq specs hh, hfin]
-  refine ⟨rfl, ?_, ?_⟩
-  · show rootTrace ((iter specs m s0).outs ++ [Out.root (evalProg specs b p).1]) = _
-    rw [rootTrace_append, hE.root]; rfl
-  · show cleanupTrace ((iter specs m s0).outs ++ [Out.root (evalProg specs b p).1]) = _
-    rw [cleanupTrace_append, hE.ran]
-    show _ ++ [] = _
-    rw [List.append_nil]; rfl
+  obtain ⟨r1, r2, r3⟩ := root_step specs _ _ hE.ctl hE.frames hE.stopOp
+  rw [← iter_succ'] at r1 r2 r3
+  have hh : (iter specs (m + 1) s0).halted = true := by simp [St.halted, r1]
+  rw [hs, settle_eq specs hh]
+  refine ⟨r1, ?_, ?_⟩
+  · rw [r2, hE.root]; rfl
+  · rw [r3, hE.ran]; rfl
 
 end Unifex.Coro
